@@ -140,7 +140,9 @@ def nested_units(rnd, n):
             lambda: un(agg(V('DS_1'), 'by', ['Id_1'])),
             lambda: agg(V('DS_1'), 'none', []),
             lambda: agg(V('DS_1'), 'except', ['Id_1']) if two else agg(V('DS_1'), 'by', ['Id_1']),
-            lambda: {'k': 'set', 'op': rnd.choice(['union', 'intersect', 'setdiff', 'symdiff']), 'ops': [b12, V('DS_1')]},
+            lambda: {'k': 'set', 'op': rnd.choice(['union', 'union', 'intersect', 'setdiff', 'symdiff']), 'ops': [b12, V('DS_1')]},
+            lambda: {'k': 'set', 'op': rnd.choice(['union', 'union', 'intersect', 'symdiff']), 'ops': [V('DS_2'), b12]},
+            lambda: {'k': 'set', 'op': 'union', 'ops': [V('DS_1'), b12, un(V('DS_2'))]},
             lambda: {'k': 'set', 'op': 'union', 'ops': [V('DS_2'), un(V('DS_1'))]},
             lambda: {'k': 'bin', 'op': op(), 'l': agg(V('DS_1'), 'by', ['Id_1']), 'r': V('DS_3')},
             lambda: {'k': 'clause', 'op': 'filter', 'ds': b12, 'items': [{'k': 'bin', 'op': '>', 'l': V('Me_1'), 'r': gen.const(gen.I(0))}]},
